@@ -31,7 +31,7 @@ def _registry(keys, alive):
     return {k: FakeRef(a) for k, a in zip(keys, alive)}
 
 
-U = [uuid.UUID(int=i + 1) for i in range(4)]
+U = [uuid.UUID(int=i + 1) for i in range(6)]
 
 
 def _make(ws, kind, uid, parent=None):
